@@ -97,7 +97,11 @@ type Rec struct {
 	required map[string]float64 // class -> minimal fraction of evaluations
 }
 
+// RuleAddendum: text appended to the rule of a property (set by the checks package).
+var RuleAddendum = map[string]string{}
+
 func New(property, rule string) *Rec {
+	rule += RuleAddendum[property]
 	return &Rec{
 		p: Part{Property: property, Shard: Shard(), Classes: map[string]int64{}, Known: map[string]int64{},
 			Excluded: map[string]int64{}, Rule: rule},
